@@ -26,7 +26,7 @@ pub fn run(session: &Session) -> i32 {
         "C06" => refprop::run(session, &refprop::C06, "typed programs from the scoping profile (4-name identifier pool, shadowing in blocks / loop bodies / match arms / if-set bodies / function bodies, closures capturing names that are redeclared afterwards, cells shared by reference, named recursive functions, user iterators consumed by operators) compared with the reference interpreter on the final value of every top-level name, the effect log and run-time errors. Non-trivial = the reference saw a shadowing, a capture-then-redeclare or consumed an iterator whose body declares locals; distinct by program text."),
         "C07" => refprop::run(session, &refprop::C07, "typed programs from the effects profile: subexpressions in every operand position are wrapped in tick calls tkN(k, e) that append k to a shared log; the log sequence (exactly once, left to right, unchosen branches and short-circuited operands silent) and all values must equal the reference's. Non-trivial = at least 2 ticks executed; distinct by program text."),
         "C11" => refprop::run(session, &refprop::C11, "typed programs from the iterator profile (array iterators, pipelines of @ ? ? T, reducers $ $+ $* $& $| $], partition, for loops, shared stateful iterators, effectful callbacks) compared with the reference's sequence semantics incl. laziness and pull order through the tick log. Non-trivial = at least one iterator pull; distinct by program text."),
-        "C12" => refprop::run(session, &refprop::C12, "typed programs from the control profile (if / match with value, type and default arms / if-set / while-set / loop / while / for nested in functions with break, continue and return at every depth) compared with the reference. Non-trivial = a non-local exit was taken, an arm other than the first was selected, or a run-time type dispatch happened; distinct by program text."),
+        "C12" => refprop::run(session, &refprop::C12, "typed programs from the control profile (if / match with value, type and default arms / if-set / while-set / loop / while / for nested in functions with break, continue and return at every depth) compared with the reference. plus ~270 matches without a default arm over compound types of unions (one type arm per member; tuples and structs distribute over their components, arrays, cells, functions and iterators do not): whatever the checker accepts is run on member-wise and mixed values and must run an arm. Non-trivial = a non-local exit was taken, an arm other than the first was selected, or a run-time type dispatch happened; distinct by program text."),
         "C13" => refprop::run(session, &refprop::C13, "typed programs from the cells profile (cells in bindings, aliases, closures, arrays; all 12 assignment operators incl. failing compound assignments; assignments used as expressions) compared with the reference heap: every read, every value an assignment yields, the aliasing structure of the final values and, after a run-time error, the cells the host can still reach; plus the assignment part of the operator x operand-type matrix with the verif monitor: every template over parameters whose type mentions mut, called with every catalogue value the host API admits, after which every reachable cell must hold a value of its declared type. Non-trivial = at least 2 writes with an aliased read, or a failing compound assignment; distinct by program text."),
         "C05" => c05::run(session),
         "C08" => c08::run(session),
